@@ -50,8 +50,8 @@ def sample_ball(center : Vec, radius : float, n_pts : int, return_point_cloud : 
         np.random.normal(0.,1., size=n_pts)
     ]).T
     pts /= np.linalg.norm(pts, axis=1, keepdims=True)
-    R = np.random.uniform(0, radius, n_pts).reshape((n_pts,1))
-    R = np.cbrt(R) # R^{1/3} for uniform distribution
+    R = np.random.uniform(0, 1, n_pts).reshape((n_pts,1))
+    R = radius * np.cbrt(R) # R^{1/3} for uniform distribution in the unit ball, then scaled to the radius
     pts = pts*R + center
     if return_point_cloud:
         pointcloud = PointCloud()
